@@ -34,3 +34,5 @@ def run(project, rep):
     rep.run(Q.q_r1_params, project, rep)
     rep.run(Q.q_r2_keywords, project, schema, rep)
     rep.run(V.v_r8_token_tables, project, rep, modules_prefix=("ofxtools.scripts.ofxget",))
+    rep.rule("J-R7", "account lists in the configuration file are read item by item whatever blanks follow the commas (the list reader / writer clause of G-R3)")
+    rep.run_only(("G-R3",), G.g_rules, project, rep, constructs=("writer[list]/reader[list]",))
